@@ -49,6 +49,7 @@ type slowReader struct {
 	r    io.Reader
 	ms   int
 	done bool
+	data []byte // what it will yield (for the event records)
 }
 
 func (s *slowReader) Read(b []byte) (int, error) {
@@ -132,7 +133,7 @@ func (w *World) appSend(task, alias string, sock engine.Socket, o AppOp) {
 	var rd io.Reader = msgReader(data, o.Binary)
 	if o.SlowMs > 0 && o.Binary && o.Opt != "preencoded" {
 		w.probe("slow_data_reader")
-		rd = &slowReader{r: bytes.NewReader(append([]byte(nil), data...)), ms: o.SlowMs}
+		rd = &slowReader{r: bytes.NewReader(append([]byte(nil), data...)), ms: o.SlowMs, data: append([]byte(nil), data...)}
 	}
 	if o.UseWrite {
 		sock.Write(rd, opts, cb)
